@@ -366,6 +366,105 @@ func checkC04(c *Ctx) {
 	}
 
 	// ---- C04.restore ----
+	// ---- C04.pool-kept ----
+	// inside a transaction the statement's pool is the transaction; library code installs the base pool
+	// (DB.Config.ConnPool) on a statement only at Open, when the current pool is no transaction (type switch
+	// without a Tx match), or after it finished an implicit transaction of its own
+	rpk := c.Rule("C04.pool-kept", "WHO-WRITES(Statement.ConnPool <- base pool): Open, non-transaction arm of Session, finished implicit transaction", 3)
+	{
+		stmtT0 := p.Named(pkgGorm, "Statement")
+		poolF := p.Field(stmtT0, "ConnPool")
+		basePoolF := p.Field(p.Named(pkgGorm, "Config"), "ConnPool")
+		txI := p.Named(pkgGorm, "Tx")
+		mentionsBase := func(info *types.Info, e ast.Expr) bool {
+			found := false
+			ast.Inspect(e, func(x ast.Node) bool {
+				if se, ok := x.(*ast.SelectorExpr); ok {
+					if v, _ := info.Uses[se.Sel].(*types.Var); v == basePoolF {
+						found = true
+					}
+				}
+				return true
+			})
+			return found
+		}
+		for _, f := range p.FuncsOf(pkgGorm, pkgCallbacks, pkgMigrator, pkgSchema, pkgClause) {
+			info := f.Pkg.TypesInfo
+			parents := parentMap(f.Body)
+			ast.Inspect(f.Body, func(n ast.Node) bool {
+				if _, ok := n.(*ast.FuncLit); ok {
+					return false
+				}
+				var lhs, rhs ast.Expr
+				switch x := n.(type) {
+				case *ast.AssignStmt:
+					for i, l := range x.Lhs {
+						if fieldSel(info, l, poolF) && len(x.Rhs) == len(x.Lhs) && mentionsBase(info, x.Rhs[i]) {
+							lhs, rhs = l, x.Rhs[i]
+						}
+					}
+				case *ast.CompositeLit:
+					if tv, ok := info.Types[x]; ok && (types.Identical(tv.Type, stmtT0) || p.isNamedPtr(tv.Type, stmtT0)) {
+						if v := compositeField(x, "ConnPool"); v != nil && mentionsBase(info, v) {
+							lhs, rhs = x, v
+						}
+					}
+				}
+				if lhs == nil {
+					return true
+				}
+				c.Touch(f)
+				root := rootFunc(f)
+				desc := "base pool installed: " + exprShort(rhs)
+				switch {
+				case root.Name() == "gorm.Open":
+					rpk.OK(root.Name(), desc, n.Pos(), "the root statement of a freshly opened handle")
+				case root.Name() == "callbacks.CommitOrRollbackTransaction":
+					rpk.OK(root.Name(), desc, n.Pos(), "decided per path below")
+				default:
+					// inside a type switch over the statement's current pool, in a clause that does not match Tx
+					okArm := false
+					for cur := ast.Node(n); cur != nil; cur = parents[cur] {
+						cc, ok := cur.(*ast.CaseClause)
+						if !ok {
+							continue
+						}
+						ts, ok := parents[parents[cc]].(*ast.TypeSwitchStmt)
+						if !ok {
+							continue
+						}
+						// the switch subject is X.Statement.ConnPool
+						subject := false
+						ast.Inspect(ts.Assign, func(x ast.Node) bool {
+							if ta, ok := x.(*ast.TypeAssertExpr); ok && fieldSel(info, ta.X, poolF) {
+								subject = true
+							}
+							return true
+						})
+						handlesTx, thisIsTx := false, false
+						for _, st := range ts.Body.List {
+							oc := st.(*ast.CaseClause)
+							for _, te := range oc.List {
+								if tv, ok := info.Types[te]; ok && types.Identical(tv.Type, txI) {
+									handlesTx = true
+									if oc == cc {
+										thisIsTx = true
+									}
+								}
+							}
+						}
+						if subject && handlesTx && !thisIsTx {
+							okArm = true
+						}
+					}
+					rpk.Check(okArm, root.Name(), desc, n.Pos(), "only when the statement's current pool is not a transaction", "the base connection pool is installed on a statement whose current pool may be a transaction: operations through this handle leave the Transaction block and are not rolled back with it")
+				}
+				return true
+			})
+		}
+		checkIdlePathsKeepPool(c, rpk)
+	}
+
 	rr := c.Rule("C04.restore", "SavePoint/RollbackTo restore the prepared-statement pool they temporarily replace on every path", 2)
 	stmtT := p.Named(pkgGorm, "Statement")
 	poolF := p.Field(stmtT, "ConnPool")
